@@ -137,7 +137,7 @@ func (s *Server) writeConfig() {
 	if err != nil {
 		Fatal("read config template: %v", err)
 	}
-	c := string(b)
+	c := strings.ReplaceAll(string(b), "\r\n", "\n")
 	c = strings.ReplaceAll(c, "127.0.0.1", s.IP)
 	c = strings.ReplaceAll(c, "/tmp/openGemini", s.Dir)
 	c = strings.ReplaceAll(c, "store-enabled = true", "store-enabled = false")
